@@ -19,7 +19,8 @@ fn one_backend(req: &Value, be: &str) -> Value {
     let n = req["n"].as_u64().unwrap_or(8);
     let sched = req["sched"].as_bool().unwrap_or(true);
     let path = req["path"].as_str().map(|s| s.to_string());
-    let rec_words = req["rec"]["words"].as_bool().unwrap_or(false);
+    let words_digest = req["rec"]["words"].as_str() == Some("digest");
+    let rec_words = req["rec"]["words"].as_bool().unwrap_or(false) || words_digest;
     let rec_events = req["rec"]["events"].as_bool().unwrap_or(false);
     let rec_counts = req["rec"]["counts"].as_bool().unwrap_or(false);
     let strict = req["strict"].as_bool().unwrap_or(true);
@@ -120,7 +121,19 @@ fn one_backend(req: &Value, be: &str) -> Value {
         if rec_words {
             let (pos, w) = r.words();
             cursors.push(json!(pos));
-            words.push(Value::Array(w.iter().map(|x| rt::word(*x)).collect()));
+            if words_digest && w.len() > 16 {
+                // FNV-1a over the words: long state vectors travel as [length, digest]
+                let mut h: u64 = 0xcbf29ce484222325;
+                for x in &w {
+                    for b in x.to_le_bytes() {
+                        h ^= b as u64;
+                        h = h.wrapping_mul(0x100000001b3);
+                    }
+                }
+                words.push(json!([format!("len{}", w.len()), format!("h{h:016x}")]));
+            } else {
+                words.push(Value::Array(w.iter().map(|x| rt::word(*x)).collect()));
+            }
         }
         if rec_counts {
             let c = r.counts();
